@@ -5,6 +5,7 @@ from ..core import Property, AnalysisError, unparse, norm, walk_no_nested
 from ..sym import Interp, S, term, show, subterms, State, flatten_cat
 from ..layout import LAYOUT_HOOKS, canon_layout, diff_layout, opaque_subterms
 from .. import intv, mut
+from ..cfg import build_cfg
 from . import c18
 
 PROP = Property(
@@ -654,3 +655,97 @@ def nested_hash(ctx):
                 stype, wt, show(g[1])[:44], show(g[2])[:50], show(r[1])[:44], show(r[2])[:50]), fn,
                 'the input is signed over the script code of the wrapper hash and pushes 0014<wrapper hash> / 0020<wrapper hash> as scriptSig: verify() is True, the spend is invalid on the network')
     ctx.floor(n, 4, 'nested-input scenarios')
+
+
+def _renumberers(cls_methods):
+    """methods of the class that assign index_n to the elements of self.inputs (directly in a loop over them, or by calling such a method)"""
+    direct = set()
+    for name, f in cls_methods.items():
+        for loop in ast.walk(f):
+            if isinstance(loop, ast.For) and 'self.inputs' in norm(loop.iter):
+                if any(isinstance(x, ast.Assign) and any(isinstance(t, ast.Attribute) and t.attr == 'index_n' for t in x.targets) for x in ast.walk(loop)):
+                    direct.add(name)
+    closure = set(direct)
+    changed = True
+    while changed:
+        changed = False
+        for name, f in cls_methods.items():
+            if name in closure:
+                continue
+            if any(isinstance(c, ast.Call) and isinstance(c.func, ast.Attribute) and isinstance(c.func.value, ast.Name) and c.func.value.id == 'self' and c.func.attr in closure for c in ast.walk(f)):
+                closure.add(name)
+                changed = True
+    return direct, closure
+
+
+LIST_MUTATORS = {'append', 'extend', 'insert', 'sort', 'reverse', 'pop', 'remove', 'clear'}
+
+
+@PROP.obligation('C01.indexes-follow-position', canaries=[
+    mut.drop_stmt('transactions', 'Transaction.merge_transaction', 'self.shuffle()', 'merged inputs keep the index numbers they had in their own transactions'),
+    mut.drop_stmt('transactions', 'Transaction.shuffle_inputs', 'o.index_n = idx', 'shuffled inputs keep their old index numbers'),
+])
+def indexes_follow_position(ctx):
+    """sign() addresses inputs by POSITION in Transaction.inputs, the digest and verify() by their index_n: the two agree only while
+    inputs[i].index_n == i. Every method of Transaction that changes the list (append, +=, insert, shuffle, sort, remove ...) is followed
+    on every path by a renumbering - a loop over self.inputs that assigns index_n, or a call of a method that does - unless it appends
+    one Input that is constructed with the next free index (add_input). The constructor has its own rule (C01.unique-indexes)."""
+    methods = {k: ctx.repo.func('transactions:Transaction.' + k) for k in ctx.repo.methods_of('transactions:Transaction')}
+    direct, renum = _renumberers(methods)
+    ctx.saw('methods that renumber the inputs: %s (directly: %s)' % (sorted(renum), sorted(direct)))
+    if not direct:
+        ctx.undecided('no method of Transaction assigns index_n to the elements of self.inputs')
+    n = 0
+    for name, f in sorted(methods.items()):
+        if name == '__init__':
+            continue
+        q = 'transactions:Transaction.' + name
+        g = build_cfg(f)
+        muts = []
+        for node in g.nodes:
+            a = node.ast
+            if a is None:
+                continue
+            for x in ([a] if node.kind != 'stmt' else [a]):
+                for y in ast.walk(x):
+                    if isinstance(y, ast.AugAssign) and norm(y.target) == 'self.inputs':
+                        muts.append((node, y, '+='))
+                    elif isinstance(y, ast.Assign) and any(norm(t) == 'self.inputs' or (isinstance(t, ast.Subscript) and norm(t.value) == 'self.inputs' and isinstance(t.slice, ast.Slice)) for t in y.targets):
+                        muts.append((node, y, 'assignment'))
+                    elif isinstance(y, ast.Call) and isinstance(y.func, ast.Attribute) and norm(y.func.value) == 'self.inputs' and y.func.attr in LIST_MUTATORS:
+                        muts.append((node, y, '.%s()' % y.func.attr))
+                    elif isinstance(y, ast.Call) and norm(y.func) in ('random.shuffle', 'shuffle') and y.args and norm(y.args[0]) == 'self.inputs':
+                        muts.append((node, y, 'shuffle'))
+                    elif isinstance(y, ast.Delete) and any('self.inputs' in norm(t) for t in y.targets):
+                        muts.append((node, y, 'del'))
+        if not muts:
+            continue
+        renum_nodes = []
+        for node in g.nodes:
+            a = node.ast
+            if a is None:
+                continue
+            for y in ast.walk(a):
+                if isinstance(y, ast.Assign) and any(isinstance(t, ast.Attribute) and t.attr == 'index_n' for t in y.targets):
+                    renum_nodes.append(node.id)
+                if isinstance(y, ast.Call) and isinstance(y.func, ast.Attribute) and isinstance(y.func.value, ast.Name) and y.func.value.id == 'self' and y.func.attr in renum and y.func.attr != name:
+                    renum_nodes.append(node.id)
+        exits = [x.id for x in g.nodes if x.kind == 'return'] + [g.exit_return]
+        for node, y, how in muts:
+            n += 1
+            # the accepted single-element idiom: append(Input(..., index_n=<name that defaults to len(self.inputs)>))
+            if how == '.append()' and y.args and isinstance(y.args[0], ast.Call) and norm(y.args[0].func) == 'Input':
+                kw = {k.arg: k.value for k in y.args[0].keywords}
+                idx = kw.get('index_n')
+                ok = idx is not None and any(isinstance(a2, ast.Assign) and norm(a2.targets[0]) == norm(idx) and norm(a2.value) == 'len(self.inputs)' for a2 in ast.walk(f))
+                ctx.saw('%s: appends one Input with index_n=%s (%s)' % (name, norm(idx) if idx is not None else None, 'next free index by default' if ok else 'not the next free index'))
+                ctx.require(ok, q, 'the appended Input is not numbered with the next free index (index_n=%s)' % (norm(idx) if idx is not None else 'missing'), y,
+                            'inputs[i].index_n != i: sign() signs the digest of another input than verify() checks')
+                continue
+            p_ = g.path_avoiding(exits, via=renum_nodes, start=node.id)
+            if node.id in renum_nodes:
+                p_ = None
+            ctx.saw('%s: %s on self.inputs, renumbered afterwards on every path: %s' % (name, how, p_ is None))
+            ctx.require(p_ is None, q, 'self.inputs is changed by %s and the method can return without renumbering index_n (%s)' % (how, g.describe_path(p_) if p_ else ''), y,
+                        't1 + t2 keeps the index numbers 0, 1, 0: the re-signed legacy inputs carry signatures over the digest of another input - invalid for every other verifier, and verify() on the merged object is False for segwit inputs')
+    ctx.floor(n, 3, 'changes of Transaction.inputs outside the constructor')
